@@ -10,7 +10,7 @@ def impl_read(text, offset=0, reader=None, lang=None):
     if lang is None:
         lang = ["en-US", "fr-FR", "und"][zlib.crc32(text.encode("utf-8")) % 3] if zlib.crc32(text.encode("utf-8")) % 3 else "en-US"
     try:
-        cs = (reader or pycaption.SCCReader()).read(text, lang=lang, offset=offset)
+        cs = (reader or core.POOL.get(pycaption.SCCReader)).read(text, lang=lang, offset=offset)
     except CaptionLineLengthError as e:
         return ("err", "lineLength", e.args[0])
     except CaptionReadTimingError as e:
